@@ -124,7 +124,7 @@ func widthBucket(w int) string {
 }
 
 var specRT = pbt.Register(pbt.Spec[Case]{
-	Prop: "C02", Name: "roundtrip",
+	Prop: "C02", Name: "roundtrip", Parallel: 8,
 	Rule:  "rapid-generated values over all 20 type codes, recursive to depth 6 (quick) / 9 (thorough), container widths 0,1,2..24, 70..160 (past table growth), occasionally 400 / 40000; boundary-biased scalars, NaN payloads, colliding and negative int keys, empty string keys; non-trivial = encoding longer than 2 bytes (a container or multi-byte scalar); distinct by encoded bytes",
 	Quick: 2500, Thorough: 150000,
 	Draw: func(t *rapid.T) Case {
@@ -137,7 +137,7 @@ func TestRoundTrip(t *testing.T) { specRT.Check(t) }
 
 // one generated value per type code per case, so that every type is exercised at top level often
 var specPerType = pbt.Register(pbt.Spec[Case]{
-	Prop: "C02", Name: "roundtrip-per-type",
+	Prop: "C02", Name: "roundtrip-per-type", Parallel: 8,
 	Rule:  "a top-level value of a type code drawn uniformly from the 20 registered codes (so each is exercised as the outermost value), same oracle; non-trivial = encoding longer than 2 bytes",
 	Quick: 2000, Thorough: 100000,
 	Draw: func(t *rapid.T) Case {
@@ -407,7 +407,7 @@ func runTogether(c TogetherCase) *pbt.Result {
 }
 
 var specTogether = pbt.Register(pbt.Spec[TogetherCase]{
-	Prop: "C02", Name: "values-alive-together",
+	Prop: "C02", Name: "values-alive-together", Parallel: 8,
 	Rule:  "2-5 values (any type, depth <= 4; one time in three all of one scalar or container type) are all built, then all encoded (the byte slices are kept exactly as handed out), then all decoded, and only then compared: every kept encoding still equals the reference encoding, every decoded value and every original still equals its model, re-encoding is identical; non-trivial = every case; distinct by case",
 	Quick: 3000, Thorough: 150000,
 	Draw: func(t *rapid.T) TogetherCase {
